@@ -333,6 +333,40 @@ def _wide_tie_case(rng, cls):
     return {"cls": cls, "script": [], "fuel": 400, "ops": ops}
 
 
+SIZES = [8, 16, 32, 64, 100, 128, 256, 512]
+
+
+def _mass_cancel_case(rng, cls, n, frac):
+    """n events at random times / priorities (many ties), a fraction `frac` of them cancelled in random order - partly before, partly
+    after a first partial run, with a few more scheduled in between - then run to the horizon: the survivors must still run in
+    (time, priority, FIFO) order with a clock that never goes back, and the cancelled ones never.  Sizes cross 8/16/32/64/100/128/256/512
+    (thresholds at which an implementation may compact, rebuild or re-heapify its list).  n > 70: implementation + oracle only."""
+    span = max(4, n // 3)
+    ops = []
+    for i in range(n):
+        t = rng.randint(0, span) * S
+        ops.append(["sched", rng.choice(["abs", "abs", "rel"]), t, cls == "DEVS" and rng.random() < 0.3, rng.choice("DDDHL"), i + 1,
+                    rng.randrange(4), []])
+    victims = rng.sample(range(1, n + 1), int(n * frac))
+    cut = rng.randint(len(victims) // 2, len(victims))
+    for v in victims[:cut]:
+        ops.append(["cancel", v])
+    ops.append(["peek", rng.randint(1, 5)])
+    h1 = rng.randint(0, span // 3) * S
+    ops.append(["until", h1, False])
+    for v in victims[cut:]:
+        ops.append(["cancel", v])
+    for j in range(rng.randint(0, 4)):
+        ops.append(["sched", "abs", h1 + rng.randint(0, span) * S, False, rng.choice("DHL"), n + 1 + j, 0, []])
+    ops.append(["peek", 4])
+    ops.append(["next"])
+    ops.append(["until", (span + 2) * S + h1, False])
+    c = {"cls": cls, "script": [], "fuel": 900, "ops": ops}
+    if n > 70:
+        c["nomodel"] = True
+    return c
+
+
 def _exotic(rng, v):
     """the same instant as another kind of number: numpy float64 / int64 scalars, bool (DEVSimulator accepts every numbers.Number)"""
     x = rng.random()
@@ -381,6 +415,9 @@ def gen_cases(rng, tier):
         cases.append(_bigint_case(rng, "DEVS" if rng.random() < 0.7 else "ABM"))
     for _ in range(10 if tier == "quick" else 200):
         cases.append(_wide_tie_case(rng, rng.choice(["ABM", "DEVS"])))
+    # many events, many of them cancelled, sizes around the thresholds (a small share here, the full grid in enumerate_cases)
+    for k, n in enumerate(SIZES if tier == "quick" else SIZES * 6):
+        cases.append(_mass_cancel_case(rng, "DEVS" if (k + rng.randint(0, 1)) % 2 else "ABM", n + rng.randint(1, 9), rng.choice([0.55, 0.75, 0.9])))
     for _ in range(50 if tier == "quick" else 2000):
         cases.append(_exotic_case(rng))
     # non-dyadic float times: implementation + oracle only (run_impl answers "model": False for them)
@@ -417,6 +454,11 @@ def enumerate_cases(tier, broken=False):
             yield {"cls": cls, "script": [], "fuel": 400, "ops": ops}
     for _ in range(300 if tier == "quick" else 1500):
         yield _inside_case(rng, rng.choice(["ABM", "DEVS"]))
+    for n in SIZES:
+        for frac in (0.25, 0.5, 0.75, 0.9):
+            for cls in ("DEVS", "ABM"):
+                for d in (-1, 1, 7):
+                    yield _mass_cancel_case(rng, cls, max(2, n + d), frac)
 
 
 RULE = ("histories = one ABMSimulator / DEVSimulator (set up, or - 4% / the life-cycle family 30% - never set up) + a sequence of "
